@@ -140,6 +140,14 @@ Theorem C10_slot_progress :
 Proof. exact slot_progress. Qed.
 Print Assumptions C10_slot_progress.
 
+(** Every step strictly decreases the remaining-work measure: the helper's statement, the
+    rollback task and the owner run out of steps, so with [C10_slot_progress] the permit is passed on. *)
+Theorem C10_slot_step_decreases :
+  forall (c : scfg) (s : sstate) (l : slabel) (s' : sstate),
+    sreachable c s -> sstep false c s l = Some s' -> smeasure c s' < smeasure c s.
+Proof. exact slot_step_decreases. Qed.
+Print Assumptions C10_slot_step_decreases.
+
 (** Regression lemma about the seeded VARIANT C10-1 (try_lock in TransactionPermit::drop,
     [sstep true]), not a finding about the code: the rollback is skipped, T's transaction stays in
     the slot after the permit was released and the following begin() hits its assert. *)
